@@ -26,6 +26,8 @@ pub struct TraceRng {
     pub calls: Vec<usize>,
     /// XOR the bytes of draw number k with a fixed non-zero pattern
     pub perturb_call: Option<usize>,
+    /// hand out all-zero bytes for draw number k (a draw that reduces to the zero scalar)
+    pub zero_call: Option<usize>,
     pub script_overrun: bool,
 }
 
@@ -41,7 +43,7 @@ pub fn seed32(parts: &[&[u8]]) -> [u8; 32] {
 
 impl TraceRng {
     pub fn new(src: Src) -> Self {
-        TraceRng { src, stream: vec![], calls: vec![], perturb_call: None, script_overrun: false }
+        TraceRng { src, stream: vec![], calls: vec![], perturb_call: None, zero_call: None, script_overrun: false }
     }
     pub fn chacha(seed: [u8; 32]) -> Self {
         Self::new(Src::ChaCha(Box::new(ChaCha20Rng::from_seed(seed))))
@@ -128,6 +130,9 @@ impl TraceRng {
             for (i, d) in dst.iter_mut().enumerate() {
                 *d ^= 0x5a ^ (i as u8).wrapping_mul(37);
             }
+        }
+        if self.zero_call == Some(self.calls.len()) {
+            dst.fill(0);
         }
         self.calls.push(dst.len());
         self.stream.extend_from_slice(dst);
